@@ -367,6 +367,15 @@ func (p *Scripted) handle(s network.Stream) {
 			}
 		}
 		s.Close()
+	case "partialreset": // the connection dies after part of the answer went out
+		for _, h := range r.Headers {
+			body, _ := h.MarshalBinary()
+			if _, err := serde.Write(s, &p2p_pb.HeaderResponse{Body: body, StatusCode: p2p_pb.StatusCode_OK}); err != nil {
+				break
+			}
+		}
+		time.Sleep(5 * time.Millisecond) // let the client read what was written before the reset tears the stream down
+		s.Reset() //nolint:errcheck
 	case "notfound":
 		_, _ = serde.Write(s, &p2p_pb.HeaderResponse{StatusCode: p2p_pb.StatusCode_NOT_FOUND})
 		s.Close()
